@@ -7,6 +7,9 @@ Read out of the function bodies (regex over the text, comments stripped):
   src_clone_copies      Value::clone_into, `Str(ArenaCow::Owned(s))` arm: builds a fresh
                         `ArenaString::from_str(arena, ...)` (true) or a Borrowed alias
                         (`as_arena_str` / `.clone()`) of the same bytes (false)
+  src_var_read_clones   eval_expr, Var arm: lookup_local / lookup_var, which clone_into(frame)
+  src_args_evaluated    eval_function_call / eval_builtin_call: every argument value is `self.eval_expr(arg_expr)?`
+                        (no shortcut that borrows a variable's storage until the parameters are bound)
   src_clone_rebuilds    Value::clone_into, Array arm: a new Vec in the target arena, every element cloned
   src_promote_rebuilds  Value::promote, Array arm: a new Vec in the persistent arena and EVERY element
                         promoted recursively, without a shortcut that moves a nested value as it is
@@ -100,8 +103,20 @@ def generate():
         "foriteminitems{promoted.push(item.promote(pool,frame));}Value::Array(promoted)}" in pb
         and "Value::Str(cow)=>Value::Str(cow.promote(pool,frame))" in pb)
 
+    # ---- every value an expression yields for a variable goes through clone_into
+    ev = squash(fn_body(rt, "eval_expr"))
+    flags["src_var_read_clones"] = (
+        "Expr::Var(v,..)=>{letframe=self.frame;letval=ifletSome(local)=self.bound_expr_local(expr)"
+        "{self.lookup_local(local,frame)}else{self.lookup_var(v,frame)}" in ev
+        and "self.lookup_local_env(local).map(|value|value.clone_into(clone_arena))" in squash(fn_body(rt, "lookup_local"))
+        and "self.lookup_env(name).map(|v|v.clone_into(clone_arena))" in squash(fn_body(rt, "lookup_var")))
+
     # ---- parameter binding in eval_function_call
     b = squash(fn_body(rt, "eval_function_call"))
+    # every argument value comes from eval_expr (no borrowed / by-reference shortcut for some argument shapes)
+    flags["src_args_evaluated"] = (
+        "forarg_exprinargs.args{arg_values.push(self.eval_expr(arg_expr)?);}" in b
+        and "forarg_exprinargs.args{arg_values.push(self.eval_expr(arg_expr)?);}" in squash(fn_body(rt, "eval_builtin_call")))
     m = re.search(r"for\(\(param,maybe_local\),arg\)in.*?param_scope\.push\(LocalSlot\{[^}]*\}\);", b)
     if not m:
         raise TranslatorError("eval_function_call: the parameter-binding loop was not found")
@@ -164,7 +179,7 @@ def generate():
     lines = ["(* GENERATED by translator/gen_mem.py from src/runtime.rs and src/arena/cow.rs — do not edit. *)",
              "(* Where the evaluator copies/promotes before storing, and the order of the staging in",
              "   relocate_return_value.  Properties/C02.v requires all of them to be true. *)"]
-    for k in ("src_clone_copies", "src_clone_rebuilds", "src_promote_rebuilds", "src_bind_promotes",
+    for k in ("src_var_read_clones", "src_args_evaluated", "src_clone_copies", "src_clone_rebuilds", "src_promote_rebuilds", "src_bind_promotes",
               "src_relocate_stages", "src_relocate_arrays", "src_stores_promote", "src_promote_copies"):
         lines.append("Definition %s : bool := %s." % (k, "true" if flags[k] else "false"))
     return "\n".join(lines) + "\n"
